@@ -123,9 +123,8 @@ func builtinJSONStringify(call FunctionCall) Value {
 		if isArray(replacer) {
 			length := objectLength(replacer)
 			seen := map[string]bool{}
-			propertyList := make([]string, length)
-			length = 0
-			for index := range propertyList {
+			propertyList := make([]string, 0, length)
+			for index := range int(length) {
 				value := replacer.get(arrayIndexToString(int64(index)))
 				switch value.kind {
 				case valueObject:
@@ -143,10 +142,9 @@ func builtinJSONStringify(call FunctionCall) Value {
 					continue
 				}
 				seen[name] = true
-				length++
-				propertyList[index] = name
+				propertyList = append(propertyList, name)
 			}
-			ctx.propertyList = propertyList[0:length]
+			ctx.propertyList = propertyList
 		} else if replacer.class == classFunctionName {
 			value := objectValue(replacer)
 			ctx.replacerFunction = &value
